@@ -57,7 +57,10 @@ def runs(draw, tier):
     c = {"type": t, "n": n, "idx": idx, "pbs": pbs, "nbs": draw(st.one_of(st.none(), st.integers(1, 6))),
          "epochs": ep, "form": draw(st.sampled_from(["tensor", "ndarray", "list", "int_ndarray", "float32_tensor", "long_tensor", "tuple", "float32_ndarray"])),
          "torch_seed": draw(st.integers(0, 2 ** 31 - 1)), "k": draw(st.integers(0, 2)), "np_sizes": draw(st.integers(0, 3)) == 0,
-         "interrupted_first": draw(st.integers(0, 3)) == 0}
+         "interrupted_first": draw(st.integers(0, 3)) == 0,
+         "aborted_first": draw(st.sampled_from([None, None, None, "on_batch_end", "on_epoch_end", "on_epoch_start"]))}
+    if not big and not pitfall and N <= 4 and draw(st.integers(0, 9)) == 0:
+        c["epochs"] = draw(st.integers(33, 40))            # a long run on a tiny data set (time axis: more than 32 epochs)
     if with_bases:
         kind = draw(st.sampled_from(["mixed", "mixed", "mixed", "all_reference", "one_letter_per_row"]))
         if kind == "all_reference":
@@ -137,6 +140,12 @@ def check(c):
         kw["neg_batch_size"] = None if c["nbs"] is None else np.int64(c["nbs"])      # sizes computed with numpy
     if c["pbs"] is not None:
         kw["pos_batch_size"] = np.int64(c["pbs"]) if c.get("np_sizes") else c["pbs"]
+    if c.get("aborted_first"):
+        # an earlier run on the same state, on OTHER data (one row fewer or a flipped copy), was aborted by an exception from a user callback
+        rows_o = [[1 - int(x) for x in r] for r in rows][: max(1, N - 1)]
+        gen.abort_a_fit(state, torch.tensor(rows_o, dtype=torch.double), None if bases is None else np.array([["Z"] * n] * len(rows_o)), hook=c["aborted_first"], pos_batch_size=1)
+        del log[:]
+        del epochs[:]
     if c.get("interrupted_first") and N >= 2:
         # lifecycle: an earlier run on the same state was stopped inside an epoch (after its first batch); the request is withdrawn and the run
         # that is verified below starts afresh: every epoch uses every row once
